@@ -206,9 +206,15 @@ def optimized_case(rep, cs, seed, i):
     for _ in range(n):
         kind = rng.choice(["rs_outer", "rs_outer", "logsoftmax"])
         if kind == "logsoftmax":
-            K = rng.choice([2, 3])
-            t = leaf(rng, (K,))
-            par = P.Parameter.from_unary(P.LogParameter((K,)), P.Parameter.from_unary(P.SoftmaxParameter((K,), axis=rng.choice([0, -1])), t))
+            rank = rng.choice([1, 2, 2, 3])
+            shape = tuple(rng.choice([2, 3]) for _ in range(rank))
+            ax = rng.randrange(rank)
+            t = leaf(rng, shape)
+            par = P.Parameter.from_unary(P.LogParameter(shape), P.Parameter.from_unary(P.SoftmaxParameter(shape, axis=axis_arg(rng, ax, rank)), t))
+            while len(shape) > 1:
+                ra = rng.randrange(len(shape))
+                par = P.Parameter.from_unary(P.ReduceSumParameter(shape, axis=axis_arg(rng, ra, len(shape))), par)
+                shape = par.shape
         else:
             rank = rng.choice([2, 2, 3])
             s1 = tuple(rng.choice([1, 2, 3]) for _ in range(rank))
